@@ -604,3 +604,48 @@ Example C14_timestamp_arm_inhabited :
   to_datetime (stamp_fields 1419965800 (Some 55) None (Some 19815)) = Val (Ok ex_odd_zone).
 Proof. exact ex_stamp_inhabited. Qed.
 Print Assumptions C14_timestamp_arm_inhabited.
+
+(** ---- a zone that is NOT a fixed offset: to_datetime_with_timezone on a zone with one transition
+    (offset a before instant t, b from then on; Model/C14.v, the harness's StepZone).  SOUNDNESS: a
+    successful result is a date-time of the zone for the resolved wall clock, agrees with every
+    supplied date / time field and with the offset field, and - since the repair /repo 56dedf6 - its
+    offset is the one the zone has at the timestamp's instant whenever a timestamp is supplied, so the
+    result is that instant (C14_stepzone_timestamp_instant).  The unrepaired body returned the other
+    candidate of a repeated local time (C14_stepzone_unrepaired_refuted: the recorded, fixed finding
+    C14-timezone-timestamp-candidate). ---- *)
+From V Require Import Model.C14 Proofs.C14Zone.
+Theorem C14_stepzone_sound : forall p t a b z,
+  typed p -> -86400 < a < 86400 -> -86400 < b < 86400 ->
+  to_datetime_with_stepzone p t a b = Val (Ok z) ->
+  exists g local,
+    guessed_of p t a b g /\
+    to_naive_datetime_with_offset p g = Val (Ok local) /\
+    is_cand t a b local z /\
+    date_sound p (nd_date local) /\ time_sound p (nd_time local) /\ ts_sound p local g /\
+    (forall o, p_offset p = Some o -> dz_off z = o) /\
+    (p_timestamp p <> None -> dz_off z = g).
+Proof. exact stepzone_sound. Qed.
+Print Assumptions C14_stepzone_sound.
+Theorem C14_stepzone_timestamp_instant : forall p t a b z,
+  typed p -> -86400 < a < 86400 -> -86400 < b < 86400 -> p_timestamp p <> None ->
+  to_datetime_with_stepzone p t a b = Val (Ok z) ->
+  exists g local, guessed_of p t a b g /\ to_naive_datetime_with_offset p g = Val (Ok local) /\
+                  ts_sound p local g /\ dz_off z = g /\
+                  ndt_checked_sub_offset local g = Val (Some (dz_utc z)).
+Proof. exact stepzone_timestamp_instant. Qed.
+Print Assumptions C14_stepzone_timestamp_instant.
+Example C14_stepzone_examples :
+  res_off (to_datetime_with_stepzone (ex_zone_fields None (Some 7200)) 1635642000 7200 3600) = Some 7200 /\
+  res_off (to_datetime_with_stepzone (ex_zone_fields None (Some 3600)) 1635642000 7200 3600) = Some 3600 /\
+  to_datetime_with_stepzone (ex_zone_fields None None) 1635642000 7200 3600 = Val (Err NotEnough) /\
+  res_off (to_datetime_with_stepzone (ex_zone_fields (Some 1635640200) None) 1635642000 7200 3600) = Some 7200 /\
+  res_off (to_datetime_with_stepzone (ex_zone_fields (Some 1635643800) None) 1635642000 7200 3600) = Some 3600 /\
+  to_datetime_with_stepzone (ex_zone_fields (Some 1635640200) (Some 3600)) 1635642000 7200 3600 = Val (Err Impossible).
+Proof. exact stepzone_examples. Qed.
+Print Assumptions C14_stepzone_examples.
+Theorem C14_stepzone_unrepaired_refuted :
+  exists p z, to_datetime_with_stepzone_unrepaired p 1635642000 7200 3600 = Val (Ok z) /\
+              p_timestamp p = Some 1635640200 /\
+              (let* ts := dt_timestamp (dz_utc z) in Val ts) = Val 1635643800.
+Proof. exact stepzone_unrepaired_refuted. Qed.
+Print Assumptions C14_stepzone_unrepaired_refuted.
